@@ -505,6 +505,13 @@ func downloadImpl(ctx context.Context, name, sha3_384, downloadURL string, user 
 			if _, err := w.Seek(0, io.SeekStart); err != nil {
 				return err
 			}
+			// starting over: drop what was there, it may be longer
+			// than what the server is about to send
+			if t, ok := w.(interface{ Truncate(size int64) error }); ok {
+				if err := t.Truncate(0); err != nil {
+					return err
+				}
+			}
 			h = crypto.SHA3_384.New()
 			resume = 0
 		}
